@@ -176,6 +176,50 @@ theorem global_window_is_full (full : View) (hwf : full.WF) (h1 : full.time ≠ 
   rfl
 
 
+/-! ## 3b. `window()` reports the bounding box of the exposed samples -/
+
+/-- every entry of `window()` is attained by an exposed sample and bounds all of them -/
+theorem window_is_bounding_box (v : View) (b : List Rat) (h : boundaries v = some b) :
+    ∃ t0 t1 la0 la1 lo0 lo1, b = [t0, t1, la0, la1, lo0, lo1]
+      ∧ (t0 ∈ v.time ∧ ∀ t ∈ v.time, t0 ≤ t) ∧ (t1 ∈ v.time ∧ ∀ t ∈ v.time, t ≤ t1)
+      ∧ (la0 ∈ v.lat ∧ ∀ x ∈ v.lat, la0 ≤ x) ∧ (la1 ∈ v.lat ∧ ∀ x ∈ v.lat, x ≤ la1)
+      ∧ (lo0 ∈ v.lon ∧ ∀ x ∈ v.lon, lo0 ≤ x) ∧ (lo1 ∈ v.lon ∧ ∀ x ∈ v.lon, x ≤ lo1) := by
+  unfold boundaries at h
+  cases h1 : vmin v.time with
+  | none => simp [h1] at h
+  | some t0 =>
+  cases h2 : vmax v.time with
+  | none => simp [h1, h2] at h
+  | some t1 =>
+  cases h3 : vmin v.lat with
+  | none => simp [h1, h2, h3] at h
+  | some la0 =>
+  cases h4 : vmax v.lat with
+  | none => simp [h1, h2, h3, h4] at h
+  | some la1 =>
+  cases h5 : vmin v.lon with
+  | none => simp [h1, h2, h3, h4, h5] at h
+  | some lo0 =>
+  cases h6 : vmax v.lon with
+  | none => simp [h1, h2, h3, h4, h5, h6] at h
+  | some lo1 =>
+  simp [h1, h2, h3, h4, h5, h6] at h
+  exact ⟨t0, t1, la0, la1, lo0, lo1, h.symm, vmin_spec _ _ h1, vmax_spec _ _ h2,
+    vmin_spec _ _ h3, vmax_spec _ _ h4, vmin_spec _ _ h5, vmax_spec _ _ h6⟩
+
+/-- the reported temporal window lies inside the requested closed window -/
+theorem window_inside_requested (full : View) (w : Win) (v : View) (hwf : full.WF)
+    (h : applyWindow full w = some v) (hnd : w.tmin ≠ w.tmax) (b : List Rat)
+    (hb : boundaries v = some b) :
+    ∃ t0 t1 rest, b = t0 :: t1 :: rest ∧ w.tmin ≤ t0 ∧ t1 ≤ w.tmax := by
+  obtain ⟨t0, t1, la0, la1, lo0, lo1, rfl, ⟨m0, _⟩, ⟨m1, _⟩, _⟩ := window_is_bounding_box v b hb
+  have ht := (window_selects_exactly full w v hwf h).1
+  rw [ht] at m0 m1
+  have k0 := (List.mem_filter.mp m0).2
+  have k1 := (List.mem_filter.mp m1).2
+  simp only [timeIn, hnd, decide_false, Bool.false_or, inRange_iff] at k0 k1
+  exact ⟨t0, t1, _, rfl, k0.1, k1.2⟩
+
 /-! ## 4. Derived series: shapes -/
 
 /-- `anomaly()` (computed branch) has the shape of the observable, for every cycle length -/
